@@ -99,6 +99,31 @@ def run(tier: str) -> int:
                     rep.violation(f"fixed-atom-moved:{kind}", f"{kind}: atoms fixed by FixAtoms moved by {moved:.3e} A", dict(ctx, fixed=fixed))
             if float(np.abs(atoms.get_positions() - pos0).max()) == 0.0:
                 rep.error(f"vacuity: nothing moved in {kind}/{constraint}")
+            # ---- "however many steps are run": the same simulation object is run again after the user has moved the
+            # system by hand between the runs (a rigid shift); the constraint holds from the edited configuration on
+            bad = False
+            for rnd in range(4):
+                atoms.positions += rs.uniform(0.3, 1.0, 3)
+                com1 = atoms.get_center_of_mass().copy()
+                pos1 = atoms.get_positions().copy()
+                rep.count((kind, constraint, "run-after-edit", rnd))
+                if hasattr(mc, "temperature") and not kind.startswith("fbmc"):
+                    mc.temperature = [1.0, 30.0, 300.0, 3000.0][rnd]  # cold rounds: the first trials after the edit are mostly rejected
+                try:
+                    mc.run(5 if kind == "hmc" else 10)
+                except Exception as ex:  # noqa: BLE001
+                    rep.violation(f"raise:{kind}:{constraint}:second-run:{type(ex).__name__}", f"{kind} with {constraint}: run after a manual edit raised {ex!r}", ctx)
+                    break
+                if constraint == "fixcom":
+                    drift = float(np.abs(atoms.get_center_of_mass() - com1).max())
+                    if drift > 1e-9:
+                        rep.violation(f"com-drift:{kind}:second-run", f"{kind}: with FixCom the centre of mass drifted by {drift:.3e} A during a run started after the user shifted the system", dict(ctx, drift=drift, round=rnd))
+                        break
+                else:
+                    moved = float(np.abs(atoms.get_positions()[fixed] - pos1[fixed]).max())
+                    if moved != 0.0:
+                        rep.violation(f"fixed-atom-moved:{kind}:second-run", f"{kind}: atoms fixed by FixAtoms moved by {moved:.3e} A during a run started after the user shifted the system", dict(ctx, fixed=fixed, round=rnd))
+                        break
     # ---- FixRot.adjust_momenta: zero angular momentum, unchanged linear momentum ----------------------------
     nrot = 200 if tier == "quick" else 5000
     worst = 0.0
